@@ -183,6 +183,19 @@ class _TimeProxy(object):
   def time():
     return W().clock.now
 
+  @staticmethod
+  def sleep(dt):
+    # time.sleep blocks the whole process: no other greenlet runs and no timer fires meanwhile. On the virtual clock
+    # that is a jump of `now` with every timer that became due firing late (advance_to tolerates now > timer time);
+    # never a real sleep (a check must not stall for the 5-60 s of a back-off)
+    w = W()
+    w.log.append((w.clock.now, 'blocking-sleep', str(dt)))
+    w.clock.now += max(0.0, float(dt))
+    w.blocking_sleeps = getattr(w, 'blocking_sleeps', 0) + 1
+    if w.blocking_sleeps > 50:
+      # a loop that sleeps without ever yielding would block the real process for good; end it so the run terminates
+      raise RuntimeError('blocking time.sleep() called %d times without the process making progress' % w.blocking_sleeps)
+
 
 GP = _GeventProxy()
 TP = _TimeProxy()
@@ -473,8 +486,27 @@ class FakeG(object):
       self.world.servers[self.port].on_data(self._conn)
 
   def send(self, data):
-    self.sendall(data)
-    return len(data)
+    """socket.send: may accept only part of the buffer (it does whenever the endpoint has a send_delay, i.e. is
+    congested) and returns the number of bytes taken; never blocks."""
+    w = self.world
+    self._check_usable('send')
+    self.send_count += 1
+    fault = w.io_fault('send', self.port, self)
+    if fault is not None:
+      w.log.append((w.clock.now, 'send-fault', self.port, self._conn.cid, repr(fault)))
+      raise fault
+    if self._err is not None:
+      raise self._err
+    data = bytes(data)
+    srv = w.servers[self.port]
+    n = len(data) // 2 if (getattr(srv, 'send_delay', 0) and len(data) > 1) else len(data)
+    part = data[:n]
+    w.log.append((w.clock.now, 'send', self.port, self._conn.cid, len(part)))
+    w.wire.append((w.clock.now, self.port, self._conn.cid, part))
+    self._conn.write_starts.append((self._conn.written, w.next_seq() if hasattr(w, 'next_seq') else None, w.clock.now))
+    self._conn.written += len(part)
+    self._deliver(part)
+    return n
 
   def recv_into(self, view, sz=0):
     w = self.world
